@@ -24,6 +24,13 @@ func genAlnum(rng *rand.Rand, thorough bool) {
 			emit(string([]byte{byte(v), byte(w)}))
 		}
 	}
+	for _, n := range []int{255, 256, 1023, 1024, 4095, 4096, 4097, 65535, 65536, 100000} {
+		emit(rep("a", n))
+		emit(rep("7", n))
+		emit(rep("a", n-1) + "1")
+		emit(rep("7", n-1) + "a")
+		emit(rep("Z", n/2) + "\xc3\xa9" + rep("Z", n/2))
+	}
 	multiByteUnits(func(u string) {
 		emit(u)
 		emit("a" + u)
